@@ -215,7 +215,7 @@ def run_shard(spec):
 
 
 def check_floors(counters, evaluations, tier):
-    if counters.get('has-own-death', 0) < 0.3 * evaluations:
+    if counters.get('has-own-death', 0) < 0.12 * evaluations:
         return ["own death in only %d of %d histories" % (
             counters.get('has-own-death', 0), evaluations)]
     return []
